@@ -447,7 +447,7 @@ func runC11(e *Env) {
 		w.c11Exec(e, &kase, nil)
 		return
 	}
-	nCases := e.Scale(160, 3000)
+	nCases := e.Scale(260, 4000)
 	if e.Tier == "search" {
 		nCases = 260
 	}
